@@ -2,7 +2,9 @@
 membership asked in other orders: descending sweep, every range end right after the non-member above it, random short
 sequences), numfmt (exhaustive short strings over the numeric alphabet + grammar-derived long strings and their
 single-character mutations), numname (the same spellings where only a NAME is allowed: MatchIDName), namepos (the
-spellings in every name-only position of a real program), lex (keyword/identifier segmentation; see lexgen)."""
+spellings in every name-only position of a real program), lex (keyword/identifier segmentation; see lexgen),
+lex-alphabet (every boundary code point of the identifier table in every place where the lexer asks whether a character
+is a name character; lexgen.run_lex_alphabet, judged by spec:lexalpha)."""
 import itertools, struct
 from fractions import Fraction
 
@@ -11,6 +13,10 @@ RULE = ("idrange: every code point 0..0x10FFFF (exhaustive, ascending); idorder:
         "(exhaustive to length 4 / 3) in name-only positions: accepted iff not of number form and not starting like a number. numfmt: all strings up to length L over the alphabet "
         "{0,1,7,+,-,.,e,E,*,^,x} plus generated documented-form numbers and all their single-character edits; "
         "non-trivial = the recogniser consumed at least one character (not immediately a name). "
+        "lex-alphabet: both ends of every range of the identifier table, the 3 code points outside each end, the continuation marks "
+        "and their neighbours, block-aligned edges and plane aliases, each as first / later / last character of a name, between "
+        "back-ticks, after every operator mark, after a keyword, after a digit: accepted iff in the table (or a continuation mark "
+        "after the first character), else refused where it stands (Spec/NameChars.lean). "
         "lex: random and exhaustive-short unspaced strings over keyword glyphs, letters, digits, operators, back-ticks; "
         "non-trivial = at least two tokens or an error")
 ASSUMPTIONS = ["strconv.ParseFloat rounds correctly (checked per case against exact rational arithmetic, not proved)",
@@ -356,6 +362,8 @@ def replay(ctx, data):
         return progs.replay(ctx, data)
     if case.startswith('lex2 '):
         print('spec :', ctx.run_lean(['spec:segmentq ' + case.split(' ')[2]])[0], '(documented segmentation of the second text)')
+    elif case.startswith('lex ') and str(data.get('stream', '')).startswith('lex-alphabet'):
+        print('spec :', ctx.run_lean(['spec:lexalpha ' + case.split(' ')[1]])[0], '(documented tokenisation over the identifier alphabet of the table, Spec/NameChars.lean)')
     elif case.startswith('lex '):
         print('spec :', ctx.run_lean(['spec:segmentq ' + case.split(' ')[1]])[0], '(documented segmentation; applies to texts of keyword glyphs, name characters and back-ticked names)')
     else:
